@@ -66,6 +66,19 @@ GXLoss    == {XScript(r, DgS(rd, mr), MsS(mroute, rt)) :
                                                       <<Call("set_response_timeout", 45000)>>)) :
                     r \in {"from_parts", "new_mut", "new_set"}}
 
+\* Connection failures on a clock of 10 ms ticks, far shorter than the
+\* back-off (a random time below 2^n s): the response timeout runs out while
+\* the request sits in its back-off.  When a back-off ends is then not
+\* determined by the ticks, so a state in which a request is in its back-off
+\* with more than one tick to go is not expanded (FineDelay); with one tick to
+\* go the next tick completes the request - with an error, on time - whether
+\* or not the back-off has ended.
+GMsFail   == {MsS(r, rt) : r \in {"from", "default"}, rt \in {1, TickMs, 2 * TickMs + TickMs \div 2, 3 * TickMs}}
+GXFail    == {XScript(r, DgS(TickMs, 0), MsS("from", rt)) :
+                r \in {"from_parts", "new_mut", "new_set"}, rt \in {TickMs, 2 * TickMs + TickMs \div 2}}
+FineDelay == LET m == IF Mode = "multi" THEN st ELSE st.m
+             IN \A r \in MReqs : m.reqs[r].st = "delay" => m.reqs[r].el + 1 >= m.conf.rt
+
 XMkOp(op, r, qq, c, d) == [op |-> op, r |-> r, q |-> qq, c |-> c, d |-> d]
 Lift(o) == XMkOp(o.op, o.r, o.q, o.c, NoDgram)
 
@@ -136,7 +149,7 @@ Finished(s) == IF Mode = "multi" THEN \A r \in MReqs : s.reqs[r].st = "done"
                ELSE s.ph = "done"
 
 CaseOf(h) == ToJson([in |-> [kind |-> Mode,
-                             cfg |-> [conf |-> st.conf.sc, nreq |-> Cardinality(MReqs)],
+                             cfg |-> [conf |-> st.conf.sc, nreq |-> Cardinality(MReqs), tickms |-> TickMs],
                              ops |-> [i \in 1..Len(h) |-> OpJson(h[i].op)]],
                      exp |-> [i \in 1..Len(h) |-> h[i].proj]])
 Emit == IF PathMode
